@@ -55,7 +55,7 @@ def check(ctx):
     check_pair_identities(ctx, KE)
     # a pair's channel c is the record analysed alone: layout routing of the two-channel input (2xN, Nx2, 2x2, list)
     from ..inputs import check_record
-    check_record(ctx, rule_s=None, rule_r="R6-channel-routing")
+    check_record(ctx, rule_s=None, rule_r="R6-channel-routing", rule_c="R6-channels-treated-alike")
     table_purity(ctx, cells=CROSS, T=T)
     ctx.trust("E4 partial evaluation of __getattr__", "E5 kernel summaries (L1, L2)", "L3, L8")
     ctx.assume("exact arithmetic; generic branch (XX, YY non-zero)")
